@@ -56,6 +56,8 @@ _REG = [_reg("pair", 400), _reg("trio", 250), _reg("vault", 400), _reg("incentiv
 
 DIST_RANDOM = {"suite": "dist", "trace": "Trace_Distributor", "cfg": "Trace_Distributor.cfg",
                "quick": {"runs": 80, "ops": 60}, "thorough": {"runs": 2000, "ops": 120}, "procs": 6}
+DIST_MULTI = {"suite": "dist", "trace": "Trace_Distributor", "cfg": "Trace_Distributor.cfg", "extra": {"kind": "multi"},
+              "quick": {"runs": 40, "ops": 60}, "thorough": {"runs": 1000, "ops": 120}, "procs": 6}
 DIST_SCHED = {"suite": "dist", "trace": "Trace_Distributor", "cfg": "Trace_Distributor.cfg", "sched_from": "MC_Distributor_sched",
               "extra": {"mode": "sched"}, "quick": {"runs": 700}, "thorough": {"runs": 0}, "procs": 8}
 MC_DIST = {"module": "MC_Distributor", "quick": "MC_Distributor_quick.cfg", "thorough": "MC_Distributor.cfg", "workers": 6,
@@ -121,10 +123,10 @@ PROPS = {
                         "extra": {"mode": "sched"}, "quick": {"runs": 0}, "thorough": {"runs": 0}, "procs": 6},
                        POOL_SUITE, VAULT_SUITE, TRIO_SUITE]},
     "C19": {"mc": [m for m, _ in _REG], "suites": [x for _, x in _REG]},
-    "C09": {"mc": [MC_DIST, MC_DIST_SCHED], "suites": [DIST_SCHED, DIST_RANDOM]},
+    "C09": {"mc": [MC_DIST, MC_DIST_SCHED], "suites": [DIST_SCHED, DIST_RANDOM, DIST_MULTI]},
     "C10": {"mc": [{"module": "MC_Pipeline", "quick": "MC_Pipeline.cfg", "thorough": "MC_Pipeline.cfg", "workers": 4, "emits": "MC_Pipeline"}, MC_DIST],
             "suites": [{"suite": "pipeline", "trace": "Trace_Pipeline", "cfg": "Trace_Pipeline.cfg", "sched_from": "MC_Pipeline",
-                        "extra": {"mode": "sched"}, "quick": {"runs": 400}, "thorough": {"runs": 0}, "procs": 8}, DIST_RANDOM],
+                        "extra": {"mode": "sched"}, "quick": {"runs": 400}, "thorough": {"runs": 0}, "procs": 8}, DIST_RANDOM, DIST_MULTI],
             "tags": ["C10."]},
     "C11": {"mc": MC_INC + [MC_HELPER], "suites": [INC_SCHED, INC_RANDOM, HELPER_SUITE]},
     "C12": {"mc": MC_INC, "suites": [INC_SCHED, INC_RANDOM]},
